@@ -18,6 +18,9 @@ case format
   frames : [{"hex": bytes of the frame on the wire, "exp": {"pkt": enc_val} | "parse" | "limit" | "none"}]
   cuts, delays (units, cyclic, per chunk), end ("eof"|"reset"|"oserror"), end_delay (units), filter (bool), max_recv
   onconn : null | [step]      gens : [[step]]      step = {sleep (units), timeout (null | subticks), resp, close}
+           optional step field  pre_close : the handler closes the client BEFORE asking for this request (after the sleep;
+           at step 0 = in the preamble of the generator, i.e. "closing the client at request #0")   [oracle only]
+  after_close : what a read on the transport does once the handler has closed it (c15_run.AFTER_CLOSE; default "ebadf")
   resp_packet : enc_val
 """
 from __future__ import annotations
@@ -68,7 +71,9 @@ ASSUMPTIONS = [
 ]
 RULE = (
     "case = serializer config x frames (valid / malformed / over-limit / truncated tail) x cut sizes x arrival delays x end "
-    "(eof, reset, filtered or not) x receive path x layer x handler shape; non-trivial = a generator restart or an "
+    "(eof, reset, filtered or not) x receive path x layer x handler shape (incl. closing the client before request #j, j = 0 "
+    "in the preamble of the first generator of every shape; polling with `yield 0` over pipelined requests) x behaviour of a "
+    "read after a local close; non-trivial = a generator restart or an "
     "on_connection generator or a timeout or a malformed frame or a handler close occurred, keyed by layer/path/features; "
     "distinct by full case digest"
 )
@@ -95,8 +100,8 @@ def _model_layer(case: dict) -> str:
 
 
 def model_input(case: dict, real: list[str]):
-    if case.get("layer") == "tcp" or case.get("conv"):
-        pass
+    if _has_pre_close(case):
+        return None     # closing before asking for a request is not a construct of the model: oracle only
     head = sers.model_head(case["spec"], case["path"], case.get("max_recv", 16384))
     if head is None:
         return None
@@ -122,6 +127,17 @@ def model_input(case: dict, real: list[str]):
         ops.append("gen")
         ops.extend(st(s) for s in g)
     return f"c15 {_model_layer(case)} {head}", ops
+
+
+def _all_steps(case: dict):
+    for st in (case.get("onconn") or []):
+        yield st
+    for g in case["gens"]:
+        yield from g
+
+
+def _has_pre_close(case: dict) -> bool:
+    return any(st.get("pre_close") for st in _all_steps(case))
 
 
 def model_post(case: dict, lines: list[str]) -> list[str]:
@@ -194,22 +210,22 @@ def oracle(case: dict, real: list[str]) -> str | None:
     lim = next((i for i, e in enumerate(exp) if e == "err limit"), None)
     got: list[str] = []           # delivered sequence
     events = []                   # (kind, name, time, index in got)
-    for ln in real:
+    for li, ln in enumerate(real):
         w = ln.split()
         if not w:
             continue
         if w[0] == "req":
             got.append("req " + ln.split(" ", 2)[2].rsplit(" ", 1)[0])
-            events.append(("item", w[1], _t(w[-1]), len(got)))
+            events.append(("item", w[1], _t(w[-1]), len(got), li))
         elif w[0] == "err" and w[2] in ("parse", "limit", "conv"):
             got.append("err " + w[2])
-            events.append(("item", w[1], _t(w[-1]), len(got)))
+            events.append(("item", w[1], _t(w[-1]), len(got), li))
         elif w[0] == "err":
-            events.append((w[2], w[1], _t(w[-1]), len(got)))
+            events.append((w[2], w[1], _t(w[-1]), len(got), li))
         elif w[0] == "closed-by-handler":
-            events.append(("hclose", w[1], _t(w[-1]), len(got)))
+            events.append(("hclose", w[1], _t(w[-1]), len(got), li))
         elif w[0] == "gen":
-            events.append(("gen-" + w[2] + ("-" + w[3] if w[2] == "end" else ""), w[1], _t(w[-1]), len(got)))
+            events.append(("gen-" + w[2] + ("-" + w[3] if w[2] == "end" else ""), w[1], _t(w[-1]), len(got), li))
     # 1. in order, once each: the delivered sequence is a prefix of the sent one
     cmp_n = len(got) if lim is None else min(len(got), lim + 1)
     if got[:cmp_n] != exp[:cmp_n]:
@@ -217,6 +233,16 @@ def oracle(case: dict, real: list[str]) -> str | None:
         return f"request #{k} seen by the handler: {got[k] if k < len(got) else '<none>'!r}, sent: {exp[k] if k < len(exp) else '<nothing>'!r}"
     if lim is None and len(got) > len(exp):
         return f"{len(got)} requests delivered, {len(exp)} sent"
+    # 3. nothing is delivered once the handler has closed the client (judged before 2: what a read on the closed transport
+    #    produced is not "the peer's connection error")
+    seen_close = False
+    for e in events:
+        if e[0] == "hclose":
+            seen_close = True
+        elif seen_close and e[0] in ("item", "timeout", "conn", "oserror"):
+            what = "a request" if e[0] == "item" else f"an exception ({e[0]})"
+            return (f"after the handler had closed the client (before request #{e[3] if e[0] != 'item' else e[3] - 1}) "
+                    f"{what} was delivered to generator {e[1]} instead of closing it")
     # 2. complete when the session ended because the peer went away
     hclose = any(e[0] == "hclose" for e in events)
     ended_by_peer = (not hclose) and any(e[0] == "gen-end-closed" for e in events)
@@ -226,13 +252,6 @@ def oracle(case: dict, real: list[str]) -> str | None:
             return f"peer disconnected after sending {len(exp)} requests, the handler saw only {len(got)}"
         if conn_err is not None and conn_err[3] != len(exp):
             return f"connection error reported to the handler after {conn_err[3]} of {len(exp)} requests"
-    # 3. nothing is delivered once the handler has closed the client
-    seen_close = False
-    for e in events:
-        if e[0] == "hclose":
-            seen_close = True
-        elif seen_close and e[0] in ("item", "timeout", "conn", "oserror"):
-            return "a request/exception was delivered to the handler after it closed the client"
     # 4. TimeoutError only if no complete request had arrived before the deadline
     aux = _aux.get(core.case_digest(case))
     if aux is not None and lim is None:
@@ -250,6 +269,19 @@ def oracle(case: dict, real: list[str]) -> str | None:
             if complete > e[3] and not _zero_timeout(case, e, events):
                 return (f"TimeoutError at {t} although {complete} complete requests had arrived before the deadline "
                         f"and only {e[3]} had been delivered")
+        # 4b. whatever the yielded timeout (0 included: a request that is ALREADY in the server's hands when the handler
+        #     yields did not "arrive late", this is no tie): TimeoutError never while a complete request (or a malformed
+        #     frame due as a parse error) that the server has already taken out of the connection is still undelivered.
+        #     marks[i] = bytes the server had read from the transport when line i was logged.
+        marks = aux.get("read_marks") or []
+        for e in events:
+            if e[0] != "timeout" or e[4] >= len(marks) or marks[e[4]] < 0:
+                continue
+            held = sum(1 for x in ends if x <= marks[e[4]])
+            if held > e[3]:
+                return (f"TimeoutError at {e[2]} (yielded timeout {_yielded_timeout(case, e, events)}) although the server had "
+                        f"already read {marks[e[4]]} bytes = {held} complete requests from the connection and delivered "
+                        f"only {e[3]}: request #{e[3]} was waiting in the receive buffer")
     # 5. generators: started ones end exactly once, one at a time, before the task finishes
     active: str | None = None
     ended: set[str] = set()
@@ -288,8 +320,7 @@ def oracle(case: dict, real: list[str]) -> str | None:
     return None
 
 
-def _zero_timeout(case: dict, ev, events) -> bool:
-    """the timeout that fired was a `yield 0` (poll): the property is silent (deadline == time of the yield)"""
+def _step_of(case: dict, ev, events) -> dict | None:
     # the k-th exception/item delivered to generator `name` corresponds to its k-th step
     name = ev[1]
     steps = case.get("onconn") if name == "oc" else (case["gens"][int(name)] if int(name) < len(case["gens"]) else [])
@@ -299,7 +330,19 @@ def _zero_timeout(case: dict, ev, events) -> bool:
             break
         if e[1] == name and e[0] in ("item", "timeout", "conn", "oserror"):
             k += 1
-    return bool(steps) and k < len(steps) and steps[k].get("timeout") == 0
+    return steps[k] if steps and k < len(steps) else None
+
+
+def _zero_timeout(case: dict, ev, events) -> bool:
+    """the timeout that fired was a `yield 0` (poll): the ARRIVAL-based rule is silent (deadline == time of the yield:
+    data that is readable but not yet read is a tie); rule 4b (data already read) still applies"""
+    st = _step_of(case, ev, events)
+    return st is not None and st.get("timeout") == 0
+
+
+def _yielded_timeout(case: dict, ev, events) -> str:
+    st = _step_of(case, ev, events)
+    return "?" if st is None else str(st.get("timeout"))
 
 
 def nontrivial(case: dict, real: list[str]) -> str | None:
@@ -315,6 +358,9 @@ def nontrivial(case: dict, real: list[str]) -> str | None:
         feats.append("bad")
     if any(ln.startswith("closed-by-handler") for ln in real):
         feats.append("hclose")
+        first = next((ln for ln in real if ln.startswith(("req ", "err ", "closed-by-handler"))), "")
+        if first.startswith("closed-by-handler") and _has_pre_close(case):
+            feats.append("close0")          # closed before request #0 was asked for
     aux = _aux.get(core.case_digest(case))
     if aux:
         bounds, acc = set(), 0
@@ -345,11 +391,17 @@ def shrink(case: dict):
             if len(g) > 1:
                 yield {**case, "gens": gens[:i] + [g[:j] + g[j + 1:]] + gens[i + 1:]}
             s = g[j]
-            for key, val in (("sleep", 0), ("timeout", None), ("resp", False), ("close", False)):
+            for key, val in (("sleep", 0), ("timeout", None), ("resp", False), ("close", False), ("pre_close", False)):
                 if s.get(key) not in (val, None) or (key == "timeout" and s.get(key) is not None):
                     yield {**case, "gens": gens[:i] + [g[:j] + [{**s, key: val}] + g[j + 1:]] + gens[i + 1:]}
     if case.get("onconn") is not None:
         yield {**case, "onconn": None}
+        oc = case["onconn"]
+        for j in range(len(oc)):
+            if len(oc) > 1:
+                yield {**case, "onconn": oc[:j] + oc[j + 1:]}
+    if case.get("after_close", "ebadf") != "ebadf":
+        yield {**case, "after_close": "ebadf"}
     cuts = case["cuts"]
     if len(cuts) > 1:
         for i in range(len(cuts)):
@@ -484,9 +536,50 @@ def gen_case(rng, layers=("low", "high", "high")) -> dict | None:
         pass
     end = rng.choice(["eof", "eof", "eof", "eof", "reset", "reset", "oserror"])
     filt = True if end != "reset" else rng.random() < 0.7
-    return {"spec": spec, "path": path, "layer": layer, "conv": conv, "frames": frames, "cuts": cuts, "delays": delays,
+    case = {"spec": spec, "path": path, "layer": layer, "conv": conv, "frames": frames, "cuts": cuts, "delays": delays,
             "end": end, "end_delay": rng.choice([0, 0, 1, 3]), "filter": filt, "max_recv": max_recv,
             "onconn": onconn, "gens": gens, "resp_packet": sers.enc_val(sers.gen_packet(rng, spec, 4))}
+    _variants(rng, case)
+    return case
+
+
+def _variants(rng, case: dict) -> None:
+    """(own draws, after everything else) the handler closes the client BEFORE asking for request #j (j = 0: in the preamble
+    of the very first generator — handle(), an on_connection generator or the bare low-level generator), with or without
+    data already sent by the peer; what a read after the close does; polling handlers (`yield 0`) over pipelined requests"""
+    r = rng.random()
+    gens, onconn = case["gens"], case["onconn"]
+    if r < 0.10:
+        first = onconn if onconn else (gens[0] if gens and gens[0] else None)
+        if r < 0.07 and first:
+            first[0]["pre_close"] = True            # request #0
+            if rng.random() < 0.5:
+                first[0]["sleep"] = 0
+        else:
+            pool = [g for g in ([onconn] if onconn else []) + gens if g]
+            if pool:
+                g = rng.choice(pool)
+                g[rng.randrange(len(g))]["pre_close"] = True
+        if rng.random() < 0.5:
+            case["delays"] = [0]                    # everything the peer sends is there before the handler starts
+        if rng.random() < 0.3:
+            case["filter"] = False
+    elif r < 0.20:
+        # polling handler: first request awaited for ever (or not), every further one polled with `yield 0`,
+        # the requests pipelined in few chunks
+        k = 0
+        for st in _all_steps(case):
+            if k > 0 or rng.random() < 0.3:
+                st["timeout"] = 0
+                if rng.random() < 0.8:
+                    st["sleep"] = 0
+            k += 1
+        case["cuts"] = rng.choice([[1 << 20], [1 << 20], [40], [13, 40], [8, 1 << 20]])
+        if rng.random() < 0.7:
+            case["delays"] = [0]
+        case["max_recv"] = rng.choice([64, 16384, 16384])
+    if rng.random() < 0.3:
+        case["after_close"] = rng.choice(["reset", "aborted", "data", "data", "eof"])
 
 
 def corpus() -> list[dict]:
@@ -524,6 +617,49 @@ def corpus() -> list[dict]:
                   "frames": [_valid(LINE, "x"), _valid(LINE, "y")], "cuts": [1], "delays": [1], "end": "reset",
                   "end_delay": 2, "filter": False, "max_recv": 2, "onconn": None,
                   "gens": [[{"sleep": 0, "timeout": None, "resp": False, "close": False}] * 4], "resp_packet": ok})
+    # the handler closes the client at request #0 (preamble of the very first generator, then a yield): bare low-level
+    # generator, first handle() generator, on_connection generator; peer silent / one request pipelined / several;
+    # every after-close behaviour of the transport; both receive paths.  Expected: generator closed, nothing delivered.
+    plain = {"sleep": 0, "timeout": None, "resp": False, "close": False}
+    pre = {**plain, "pre_close": True}
+    for path in ("copy", "buffered"):
+        for shape in ("low", "handle", "onconn", "tcp-handle", "tcp-onconn"):
+            for k, ac in ((0, "ebadf"), (1, "ebadf"), (1, "reset"), (3, "data"), (1, "aborted"), (1, "eof")):
+                cases.append({"spec": LINE, "path": path, "layer": "low" if shape == "low" else ("tcp" if shape.startswith("tcp") else "high"),
+                              "conv": False, "frames": [_valid(LINE, x) for x in "abc"[:k]], "cuts": [1 << 20], "delays": [0],
+                              "end": "eof" if ac != "data" else "reset", "end_delay": 2, "filter": ac in ("aborted", "eof"),
+                              "max_recv": 16384, "after_close": ac,
+                              "onconn": [pre, plain] if shape.endswith("onconn") else None,
+                              "gens": [[plain, plain]] if shape.endswith("onconn") else [[pre, plain], [plain]],
+                              "resp_packet": ok})
+    # close before request #1 / #2 (preamble of the 2nd generator, middle of a generator), requests pipelined
+    for path in ("copy", "buffered"):
+        for layer in ("high", "tcp"):
+            cases.append({"spec": LINE, "path": path, "layer": layer, "conv": False,
+                          "frames": [_valid(LINE, x) for x in "abcd"], "cuts": [1 << 20], "delays": [0], "end": "eof",
+                          "end_delay": 1, "filter": False, "max_recv": 16384, "after_close": "data", "onconn": None,
+                          "gens": [[plain], [pre, plain]], "resp_packet": ok})
+        cases.append({"spec": LINE, "path": path, "layer": "low", "conv": False,
+                      "frames": [_valid(LINE, x) for x in "abcd"], "cuts": [1 << 20], "delays": [0], "end": "eof",
+                      "end_delay": 1, "filter": False, "max_recv": 16384, "after_close": "reset", "onconn": None,
+                      "gens": [[plain, plain, pre, plain]], "resp_packet": ok})
+    # polling handler (`yield 0`, and a timeout of one subtick) over requests that came in ONE read, a malformed one among
+    # them: each of them is delivered (parse error at its position), TimeoutError only once the buffer holds nothing complete
+    for path in ("copy", "buffered"):
+        for layer in ("low", "high", "tcp"):
+            for per_gen in (1, 2, 8):
+                for to in (0, 1):
+                    poll = {"sleep": 0, "timeout": to, "resp": False, "close": False}
+                    steps = [plain] + [poll] * 6
+                    gens = [steps] if layer == "low" else [steps[i:i + per_gen] if i else [plain] + [poll] * (per_gen - 1)
+                                                           for i in range(0, 8, per_gen)]
+                    if layer == "low" and per_gen != 8:
+                        continue
+                    cases.append({"spec": LINE, "path": path, "layer": layer, "conv": False,
+                                  "frames": [_valid(LINE, "a"), _valid(LINE, "b"), _fr(b"\xe9\n", "parse"), _valid(LINE, "d"),
+                                             _valid(LINE, "e"), _fr(b"f", "none")],
+                                  "cuts": [1 << 20] if per_gen != 2 else [3, 1 << 20], "delays": [0], "end": "eof", "end_delay": 3,
+                                  "filter": True, "max_recv": 16384, "onconn": None, "gens": gens, "resp_packet": ok})
     return cases
 
 
